@@ -323,4 +323,26 @@ theorem C02_cex_oneof_out_ambiguous :
 /-- … in the other order nothing is lost -/
 example : judgeU false [.sch objAB, .sch objA] (unionTy id (fun _ => []) [.sch objAB, .sch objA]) (.obj [("a".toList, st "x"), ("b".toList, .num 1 0)]) = true := by decide
 
+/-! ### `anyOf` with a free-form string next to string constants (the Known/Other pair) -/
+
+/-- finding F02-16: when an `anyOf` has a free-form string alternative and carries string constants, the generator emits the
+Known/Other pair and looks at nothing else: EVERY document that is not a string is refused — also those that are valid against
+an array / object / number alternative of the same `anyOf` — for every list of alternatives and every naming function -/
+theorem C02_relaxed_anyof_refuses_non_strings (fname : Str → Str) (vname : J → Str) (alts : List Alt) (hp : relaxedPattern alts = true)
+    (d : J) (hd : ∀ s, d ≠ .str s) : rtRoot (rootOf fname vname false alts) d = none := by
+  simp only [rootOf, anyOfRoot, hp, if_true, Bool.false_eq_true, if_false, rtRoot, rtU, rtVar, typeOf]
+  cases d with
+  | str s => exact absurd rfl (hd s)
+  | _ => simp [rt]
+
+/-- witness: `anyOf: [{const: red}, {type: array, items: string}, {type: string}]` refuses the valid document `["a"]` -/
+theorem C02_cex_relaxed_drops_array :
+    validU false false [.const "red".toList, .sch (.arr .str), .sch .str] (.arr [st "a"]) = true ∧
+    judgeRoot false [.const "red".toList, .sch (.arr .str), .sch .str] (rootOf id (fun _ => []) false [.const "red".toList, .sch (.arr .str), .sch .str]) (.arr [st "a"]) = false ∧
+    classesU id (fun _ => []) false [.const "red".toList, .sch (.arr .str), .sch .str] (.arr [st "a"]) = [.relaxedDropsAlternatives] := by decide
+
+/-- … while strings, known or not, round-trip -/
+example : judgeRoot false [.const "red".toList, .sch (.arr .str), .sch .str] (rootOf id (fun _ => "V".toList) false [.const "red".toList, .sch (.arr .str), .sch .str]) (st "red") = true ∧
+    judgeRoot false [.const "red".toList, .sch (.arr .str), .sch .str] (rootOf id (fun _ => "V".toList) false [.const "red".toList, .sch (.arr .str), .sch .str]) (st "zzz") = true := by decide
+
 end Oas3.Codec.C02
